@@ -1,5 +1,433 @@
 import Driver.Proto
+import TonicModel.Model.Shutdown
+import TonicModel.Spec.Shutdown
+/-
+C13 driver.  A case is a scenario script (see harness/src/c13.rs for the grammar); the model side
+executes it on `Shutdown.step` — environment labels for the script's operations, then the internal
+labels to quiescence (`settle`) wherever the harness lets the runtime go idle.  Time = number of
+quiescent points passed.  Where the script leaves two operations without a quiescent point between
+them (`~k`), the transition system is genuinely nondeterministic (was the connection taken / the
+stream accepted before the next operation hit?): those choices — and only those — are resolved by
+what was observed (`Oracle`), everything else is predicted.
+
+The verdict is computed from the script and the observation alone, with `Spec.Shutdown`.
+-/
 namespace DriverC13
-/-- stub: property not yet claimed -/
-def handle (_case _obs : List String) : String × String := ("unclaimed", "fail:unclaimed")
+open Proto Shutdown
+
+inductive Op where
+  | conn | unary (c s : Nat) | stream (c n s : Nat) | adv (k : Nat) | sig | endInc | accErr
+  | dropConn (c : Nat) | cancel (k : Nat) | age
+deriving Repr
+
+structure Step where
+  op : Op
+  settled : Bool
+
+def natOf (cs : List Char) : Option Nat := (String.ofList cs).toNat?
+
+def splitColon (cs : List Char) : List (List Char) :=
+  ((String.ofList cs).splitOn ":").map (·.toList)
+
+def parseOp (body : List Char) : Option Op :=
+  match body with
+  | ['C'] => some .conn
+  | ['G'] => some .sig
+  | ['E'] => some .endInc
+  | ['T'] => some .age
+  | ['I', 'r'] => some .accErr
+  | ['I', 'o'] => some .accErr
+  | 'U' :: rest =>
+    match splitColon rest with
+    | [c, s] => do some (.unary (← natOf c) (← natOf s))
+    | _ => none
+  | 'S' :: rest =>
+    match splitColon rest with
+    | [c, n, s] => do some (.stream (← natOf c) (← natOf n) (← natOf s))
+    | _ => none
+  | 'A' :: rest => (natOf rest).map .adv
+  | 'D' :: rest => (natOf rest).map .dropConn
+  | 'X' :: rest => (natOf rest).map .cancel
+  | _ => none
+
+def parseStep (tok : String) : Option Step :=
+  match tok.splitOn "~" with
+  | [b] => (parseOp b.toList).map fun op => { op := op, settled := true }
+  | [b, y] => match y.toNat? with
+    | some _ => (parseOp b.toList).map fun op => { op := op, settled := false }
+    | none => none
+  | _ => none
+
+structure Script where
+  graceful : Bool
+  age : Bool
+  steps : List Step
+
+def parseScript (case : List String) : Option Script :=
+  match case with
+  | tag :: m :: _b :: _p :: a :: rest =>
+    if !tag.startsWith "sc" then none else
+    let g := match m with | "g" => some true | "n" => some false | _ => none
+    let ag := match a with | "a0" => some false | "a1" => some true | _ => none
+    match g, ag, rest.mapM parseStep with
+    | some g, some ag, some steps => some { graceful := g, age := ag, steps := steps }
+    | _, _, _ => none
+  | _ => none
+
+-- ------------------------------------------------------------------ observation
+
+structure ConnObs where
+  accepted : Bool
+  closedAt : Option Nat
+deriving Repr
+
+structure CallObs where
+  started : Bool
+  hdr : Option Bool      -- none = not received, some false = wrong
+  msgs : Option Nat      -- none = a wrong message was seen
+  fin : Option (Nat × Bool)  -- status code, message text as sent
+  ns : Bool
+  doneAt : Option Nat
+deriving Repr
+
+structure Obs where
+  resolvedAt : Option Nat
+  openAtResolve : Nat
+  conns : List ConnObs
+  calls : List CallObs
+deriving Repr
+
+def idx? (s : String) : Option (Option Nat) := if s = "-" then some none else s.toNat?.map some
+
+def parseObs (obs : List String) : Option Obs :=
+  match obs with
+  | r :: rest =>
+    match (r.drop 1).toString.splitOn ":" with
+    | [ra, op, _] =>
+      let resolvedAt := (idx? ra).getD none
+      let openAt := op.toNat?.getD 0
+      let go := rest.foldl (fun (acc : Option (List ConnObs × List CallObs)) tok =>
+        match acc with
+        | none => none
+        | some (cs, ks) =>
+          match tok.toList with
+          | 'c' :: _ =>
+            match tok.splitOn ":" with
+            | [_, a, cl] => match idx? cl with
+              | some cl => some (cs ++ [{ accepted := a == "1", closedAt := cl }], ks)
+              | none => none
+            | _ => none
+          | 'k' :: _ =>
+            match tok.splitOn ":" with
+            | [_, st, h, m, f, d] =>
+              let hdr := if h = "0" then none else some (h == "1")
+              let fin : Option (Nat × Bool) :=
+                if f = "-" ∨ f = "ns" then none
+                else
+                  let body := (f.drop 1).toString
+                  let good := !body.endsWith "!"
+                  let digits := String.ofList (body.toList.filter Char.isDigit)
+                  digits.toNat?.map fun c => (c, good)
+              match idx? d with
+              | some d => some (cs, ks ++ [{ started := st == "1", hdr := hdr, msgs := m.toNat?,
+                                             fin := fin, ns := f == "ns", doneAt := d }])
+              | none => none
+            | _ => none
+          | _ => none) (some ([], []))
+      match go with
+      | some (cs, ks) => some { resolvedAt := resolvedAt, openAtResolve := openAt, conns := cs, calls := ks }
+      | none => none
+    | _ => none
+  | [] => none
+
+-- ------------------------------------------------------------------ model execution
+
+def unaryChunks (s : Nat) : List (List Item) :=
+  if s = 0 then [[.hdr, .msg 0, .status 0]] else [[.status s]]
+
+def streamChunks (n s : Nat) : List (List Item) :=
+  [[Item.hdr]] ++ (List.range n).map (fun j => [Item.msg j]) ++ [[Item.status s]]
+
+structure Sim where
+  st : State
+  t : Nat
+  closedAt : List (Option Nat)
+  doneAt : List (Option Nat)
+  resolvedAt : Option Nat
+  callMap : List (Nat × Nat)     -- call id → (connection, index within the connection)
+  accW : List Bool               -- oracle: was connection c accepted
+  startW : List Bool             -- oracle: was call k started
+
+def Sim.apply (m : Sim) (l : Label) : Sim :=
+  match step m.st l with
+  | some s' => { m with st := s' }
+  | none => m
+
+def Sim.gid (m : Sim) (c j : Nat) : Nat := (m.callMap.findIdx? (· == (c, j))).getD 0
+
+def Sim.wantAcc (m : Sim) (c : Nat) : Bool := m.accW.getD c true
+def Sim.wantStart (m : Sim) (c j : Nat) : Bool := m.startW.getD (m.gid c j) true
+
+def connIdx (s : State) : List Nat := List.range s.conns.length
+
+def callIdx (s : State) : List (Nat × Nat) :=
+  (connIdx s).flatMap fun c =>
+    match s.conns[c]? with
+    | some cn => (List.range cn.calls.length).map fun j => (c, j)
+    | none => []
+
+/-- steps whose outcome a later operation could still pre-empt -/
+def Sim.eager (m : Sim) : List Label :=
+  ((connIdx m.st).filter m.wantAcc).map Label.loopAccept
+  ++ (connIdx m.st).map Label.hsDone
+  ++ ((callIdx m.st).filter fun cj => m.wantStart cj.1 cj.2).map fun cj => Label.callStart cj.1 cj.2
+
+def Sim.candidates (m : Sim) : List Label :=
+  m.eager
+  ++ (callIdx m.st).map (fun cj => Label.produce cj.1 cj.2)
+  ++ (callIdx m.st).map (fun cj => Label.deliver cj.1 cj.2)
+  ++ [Label.loopSig, Label.loopErr, Label.loopEnd, Label.afterLoop]
+  ++ (connIdx m.st).flatMap (fun c =>
+        [Label.connSig c, Label.connAge c, Label.final c, Label.connBreak c, Label.connDropWatcher c])
+  ++ [Label.resolve]
+  ++ (connIdx m.st).map Label.loopAccept
+  ++ (callIdx m.st).map (fun cj => Label.callStart cj.1 cj.2)
+
+def firstEnabled (s : State) : List Label → Option State
+  | [] => none
+  | l :: ls => match step s l with
+    | some s' => some s'
+    | none => firstEnabled s ls
+
+def Sim.runEager : Nat → Sim → Sim
+  | 0, m => m
+  | fuel + 1, m => match firstEnabled m.st m.eager with
+    | some s' => Sim.runEager fuel { m with st := s' }
+    | none => m
+
+def Sim.runAll : Nat → Sim → Sim
+  | 0, m => m
+  | fuel + 1, m => match firstEnabled m.st m.candidates with
+    | some s' => Sim.runAll fuel { m with st := s' }
+    | none => m
+
+def stamp (t : Nat) (old : List (Option Nat)) (now : List Bool) : List (Option Nat) :=
+  (now.zipIdx).map fun (b, i) =>
+    match old.getD i none with
+    | some x => some x
+    | none => if b then some t else none
+
+def Sim.callDone (m : Sim) (cj : Nat × Nat) : Bool :=
+  match m.st.conns[cj.1]? with
+  | some cn => match cn.calls[cj.2]? with
+    | some k => k.started && k.complete
+    | none => false
+  | none => false
+
+def Sim.record (m : Sim) : Sim :=
+  { m with
+    closedAt := stamp m.t m.closedAt (m.st.conns.map fun cn => cn.closed)
+    doneAt := stamp m.t m.doneAt (m.callMap.map m.callDone)
+    resolvedAt := match m.resolvedAt with
+      | some r => some r
+      | none => if m.st.resolved then some m.t else none }
+
+def fuelOf (m : Sim) : Nat := 200 + 40 * m.st.conns.length + 40 * m.callMap.length
+
+def Sim.settle (m : Sim) : Sim :=
+  let m := (m.runAll (4 * fuelOf m + 4000)).record
+  { m with t := m.t + 1 }
+
+def Sim.issue (m : Sim) (c : Nat) (chunks : List (List Item)) : Sim :=
+  let j := match m.st.conns[c]? with | some cn => cn.calls.length | none => 0
+  let m := m.apply (.issue c chunks)
+  { m with callMap := m.callMap ++ [(c, j)] }
+
+def Sim.doOp (m : Sim) : Op → Sim
+  | .conn => m.apply .offer
+  | .unary c s => m.issue c (unaryChunks s)
+  | .stream c n s => m.issue c (streamChunks n s)
+  | .adv k => match m.callMap[k]? with
+    | some (c, j) => m.apply (.permit c j)
+    | none => m
+  | .sig => m.apply .sigFire
+  | .endInc => m.apply .endIncoming
+  | .accErr => m.apply .acceptErr
+  | .dropConn c => m.apply (.peerDrop c)
+  | .cancel k => match m.callMap[k]? with
+    | some (c, j) => m.apply (.cancel c j)
+    | none => m
+  | .age => m.apply .ageTick
+
+def Sim.doStep (m : Sim) (st : Step) : Sim :=
+  let m := m.doOp st.op
+  if st.settled then m.settle else (m.runEager (fuelOf m)).record
+
+def simulate (sc : Script) (biased : Bool) (accW startW : List Bool) : Sim :=
+  let m0 : Sim := { st := init sc.graceful biased sc.age, t := 0, closedAt := [], doneAt := [],
+                    resolvedAt := none, callMap := [], accW := accW, startW := startW }
+  let m := sc.steps.foldl Sim.doStep m0
+  -- drain: every handler runs freely
+  let m := (m.apply .freeRun).settle
+  -- every client goes away
+  let m := (connIdx m.st).foldl (fun m c => m.apply (.peerDrop c)) m
+  m.settle
+
+def showIdx : Option Nat → String
+  | some n => toString n
+  | none => "-"
+
+def render (m : Sim) : String :=
+  let r := match m.resolvedAt with
+    | some t => if m.st.cfgGraceful then s!"R{t}:{m.st.openAtResolve}:ok" else s!"R{t}:*:ok"
+    | none => "R-:-:-"
+  let cs := (m.st.conns.zipIdx).map fun (cn, i) =>
+    s!"c{i}:{if cn.accepted then 1 else 0}:{showIdx (m.closedAt.getD i none)}"
+  let ks := (m.callMap.zipIdx).map fun (cj, i) =>
+    match m.st.conns[cj.1]? with
+    | some cn => match cn.calls[cj.2]? with
+      | some k =>
+        if !k.started then s!"k{i}:0:0:0:ns:-"
+        else
+          let got := k.sent.take k.recv
+          let hdr := if got.contains .hdr then 1 else 0
+          let n := got.countP fun it => match it with | .msg _ => true | _ => false
+          let fin := match got.findSome? fun it => match it with | .status c => some c | _ => none with
+            | some c => s!"s{c}"
+            | none => "-"
+          let done := if fin == "-" then none else m.doneAt.getD i none
+          s!"k{i}:1:{hdr}:{n}:{fin}:{showIdx done}"
+      | none => "k?"
+    | none => "k?"
+  String.intercalate " " (r :: cs ++ ks)
+
+-- ------------------------------------------------------------------ spec verdict (script + observation only)
+
+open Spec.Shutdown in
+def gotOf (k : CallObs) : List Out :=
+  (match k.hdr with | none => [] | some true => [Out.hdr] | some false => [Out.status 999999])
+  ++ (match k.msgs with | some n => msgs 0 n | none => [Out.status 999998])
+  ++ (match k.fin with | none => [] | some (c, true) => [Out.status c] | some (_, false) => [Out.status 999997])
+
+/-- group number of every step: steps not separated by a quiescent point share a group -/
+def groups (steps : List Step) : List Nat :=
+  (steps.foldl (fun (acc : List Nat × Nat) st => (acc.1 ++ [acc.2], if st.settled then acc.2 + 1 else acc.2))
+    ([], 0)).1
+
+def isShutdownOp : Op → Bool
+  | .sig | .endInc => true
+  | _ => false
+
+structure ConnInfo where
+  afterSignal : Bool
+  mustAccept : Bool
+  group : Nat
+
+structure CallInfo where
+  conn : Nat
+  plan : List Spec.Shutdown.Out
+  abandoned : Bool
+  mustStart : Bool
+
+def analyse (sc : Script) : List ConnInfo × List CallInfo :=
+  let gs := groups sc.steps
+  let sg := sc.steps.zip gs
+  -- first group containing a shutdown request / a signal position in script order
+  let firstShutdownGroup : Option Nat := (sg.find? fun x => isShutdownOp x.1.op).map (·.2)
+  let quietUpTo (g : Nat) : Bool := match firstShutdownGroup with | some h => g < h | none => true
+  let idxd := sg.zipIdx
+  let conns : List ConnInfo := idxd.filterMap fun ((st, g), i) =>
+    match st.op with
+    | .conn =>
+      let afterSig := (sc.steps.take i).any fun s => match s.op with | .sig => true | _ => false
+      some { afterSignal := afterSig, mustAccept := quietUpTo g, group := g }
+    | _ => none
+  let callOps : List (Nat × Nat × Nat × List Spec.Shutdown.Out) := idxd.filterMap fun ((st, g), i) =>
+    match st.op with
+    | .unary c s => some (i, g, c, Spec.Shutdown.planUnary s)
+    | .stream c n s => some (i, g, c, Spec.Shutdown.planStream n s)
+    | _ => none
+  let calls : List CallInfo := (callOps.zipIdx).map fun ((i, g, c, plan), k) =>
+    let droppedEver := sc.steps.any fun s => match s.op with
+      | .dropConn c' => c' == c | .cancel k' => k' == k | _ => false
+    -- anything before the call became quiescent that could have turned the connection away
+    let disturbed := (sg.zipIdx).any fun ((s, g'), i') =>
+      g' ≤ g && (match s.op with
+        | .sig | .endInc => true
+        | .age => sc.age
+        | .dropConn c' => c' == c && i' < i
+        | _ => false)
+    let connOk := match conns[c]? with | some ci => ci.mustAccept | none => false
+    { conn := c, plan := plan, abandoned := droppedEver, mustStart := connOk && !disturbed }
+  (conns, calls)
+
+open Spec.Shutdown in
+def verdictOf (sc : Script) (o : Obs) : String :=
+  let (cis, kis) := analyse sc
+  if cis.length ≠ o.conns.length ∨ kis.length ≠ o.calls.length then "fail:shape" else
+  let shutdownRequested := sc.steps.any fun s => isShutdownOp s.op
+  let nGroups := (groups sc.steps).foldl max 0 + (if sc.steps.any (·.settled) then 0 else 0)
+  let _ := nGroups
+  -- time of the drain point = number of quiescent points in the script
+  let tDrain := (sc.steps.filter (·.settled)).length
+  let connViews (closedBy : Option Nat) : List ConnView := (cis.zip o.conns).map fun (ci, co) =>
+    { offeredAfterSignal := ci.afterSignal, accepted := co.accepted,
+      closed := match co.closedAt, closedBy with
+        | some x, some r => x ≤ r
+        | some _, none => true
+        | none, _ => false }
+  let callViews (doneBy : Option Nat) : List CallView := (kis.zip o.calls).map fun (ki, ko) =>
+    let inTime := match doneBy with
+      | none => true
+      | some r => match ko.doneAt with | some d => d ≤ r | none => false
+    { plan := ki.plan, got := if inTime then gotOf ko else [], started := ko.started,
+      abandoned := ki.abandoned }
+  let finalCalls := callViews none
+  let served := (cis.zip o.conns).all (fun (ci, co) => !ci.mustAccept || co.accepted)
+             && (kis.zip o.calls).all (fun (ki, ko) => !ki.mustStart || ko.started)
+  let base : List (String × Bool) :=
+    [("truthful-outcome", truthful finalCalls),
+     ("accepted-call-completes", acceptedCallsComplete finalCalls),
+     ("served-before-shutdown", served)]
+  let shut : List (String × Bool) :=
+    if sc.graceful then
+      [("no-accept-after-signal", noAcceptAfterSignal (connViews none)),
+       ("resolve-only-after-close",
+          match o.resolvedAt with
+          | some r => o.openAtResolve == 0
+                      && resolvedOnlyAfterClose true (connViews (some r)) (callViews (some r))
+          | none => true),
+       ("resolves-once-closed",
+          resolvesOnceClosed shutdownRequested
+            (match o.resolvedAt with | some r => r ≤ tDrain | none => false)
+            (connViews (some tDrain))),
+       -- at the drain point every handler has been released and has had a quiescent point to finish
+       ("shutdown-completes",
+          shutdownCompletes shutdownRequested true
+            (match o.resolvedAt with | some r => r ≤ tDrain | none => false)),
+       ("no-spurious-resolve", noSpuriousResolve shutdownRequested o.resolvedAt.isSome)]
+    else
+      [("resolves-once-closed",
+          !(sc.steps.any fun s => match s.op with | .endInc => true | _ => false)
+          || (match o.resolvedAt with | some r => r ≤ tDrain | none => false))]
+  verdict (base ++ shut)
+
+def handle (case obs : List String) : String × String :=
+  match parseScript case with
+  | none => bad
+  | some sc =>
+    match obs with
+    | ["hang"] => ("-", "fail:hang")
+    | ["panic"] => ("-", "fail:panic")
+    | _ =>
+    match parseObs obs with
+    | none => ("-", "fail:unreadable-observation")
+    | some o =>
+      let racy := sc.steps.any fun s => !s.settled
+      let accW := if racy then o.conns.map (·.accepted) else []
+      let startW := if racy then o.calls.map (·.started) else []
+      -- the repaired accept loop (`biased;`): fixes/fix-C13-biased-accept-select.patch
+      let m := simulate sc true accW startW
+      (render m, verdictOf sc o)
+
 end DriverC13
